@@ -68,3 +68,11 @@ Definition indirect_parts (path : list N) (r : relation) : list N :=
     end
   | [] => relation_parts r
   end.
+
+(* the inode of an auxiliary CLONE (Builder.buildAux + Framer.resolveMoots): the `via` of the aux verb
+   replaces the moot framer's own via -- also when the aux verb has no via clause (empty inode) --
+   except `via mine`, which keeps the moot's *)
+Inductive auxvia := ViaAbsent | ViaMine | ViaGiven (p : list N).
+
+Definition clone_inode (moot_via : list N) (v : auxvia) : list N :=
+  match v with ViaAbsent => [] | ViaMine => moot_via | ViaGiven p => p end.
